@@ -596,6 +596,10 @@ redo:
 		if idx >= m.CaptureLength()-1 {
 			panic(newError(_UNKNOWN, "invalid capture index"))
 		}
+		if m.IsPosCapture(idx) {
+			// a position capture holds no substring; Lua 5.1 never matches a back-reference to it
+			return false, sp, m
+		}
 		capture := src[m.Capture(idx):m.Capture(idx+1)]
 		for i := 0; i < len(capture); i++ {
 			if i+sp >= len(src) || capture[i] != src[i+sp] {
